@@ -269,6 +269,9 @@ impl LefParser {
     fn parse_point(&mut self) -> LefResult<LefPoint>;
     fn parse_density(&mut self) -> LefResult<Vec<LefDensityGeometries>>;
 }
+// core: `txt.chars().collect::<Vec<char>>()` (the characters of a string, in order)
+impl String { fn chars(&self) -> Chars; }
+impl Chars { fn collect(self) -> Vec<char>; }
 // data.rs: `LefDbuPerMicron::try_new` (rust_decimal: fract / trunc / mantissa)
 impl LefDbuPerMicron { fn try_new(x: LefDecimal) -> LefResult<LefDbuPerMicron>; }
 // read.rs: `fn parse_enum<T: EnumStr>(&mut self) -> LefResult<T>` (a name, upper-cased, through the enumstr! table of T), at each type it is called at
@@ -552,8 +555,10 @@ UNITS = [
                  ("lef_parse3", "LefParser::parse_layer_geometries"), ("lef_parse3", "LefParser::parse_via_shape"), ("lef_parse3", "LefParser::parse_via_layer_geometries"),
                  ("lef_parse3", "LefParser::parse_obstructions"), ("lef_parse3", "LefParser::parse_port"), ("lef_parse3", "LefParser::parse_property_definition_tail"),
                  ("lef_parse3", "LefParser::parse_property_definitions"),
-                 ("lef_parse_lib", "LefParser::parse_pin"), ("lef_parse_macro", "LefParser::parse_macro")],
-     "generic_inst": {}, "foreign": {"String", "LefDecimal", "LefDbuPerMicron"}, "aliases": {"str": "String"},
+                 ("lef_parse_lib", "LefParser::parse_pin"), ("lef_parse_macro", "LefParser::parse_macro"),
+                 ("lef_parse2", "LefParser::parse_bus_bit_chars"), ("lef_parse2", "LefParser::parse_divider_char"),
+                 ("lef_parse_via", "LefParser::parse_via")],
+     "generic_inst": {}, "foreign": {"String", "LefDecimal", "LefDbuPerMicron", "Chars"}, "aliases": {"str": "String"},
      "extern": {"LefParser::txt", "LefParser::advance", "LefParser::matches", "LefParser::expect", "LefParser::peek_key", "LefParser::get_key",
                 "LefParser::expect_key", "LefParser::parse_ident", "LefParser::parse_number", "LefParser::parse_point", "LefParser::parse_density"},
      "result_aliases": {"LefResult"}, "skip_recv": set()},
@@ -1648,7 +1653,8 @@ class FnGen:
             return "false"
         if ty == ("f64",):
             return "(f_zero ops)"
-        if ty[0] == "struct" and "Default" in self.w.meta[ty[1]]["derives"] and "%s::default" % ty[1] not in self.w.fns:
+        if ty[0] == "struct" and "Default" in self.w.meta[ty[1]]["derives"] and ("%s::default" % ty[1] not in self.w.fns
+                or (self.unit.get("let_annot") and len(self.w.fns["%s::default" % ty[1]].params) > 1)):     # (a builder's setter of a field called `default`)
             fields = self.tr.literal_fields(ty[1])
             if len(fields) != len(self.w.structs[ty[1]]):
                 self.err(node, "%s::default(): the struct has fields of types outside the subset" % ty[1])
@@ -2002,6 +2008,10 @@ class FnGen:
             return self.seq([a], lambda ns: Val("M", "(i_cast ops %s %s %s)" % (tag(a.ty), tag(to), ns[0]), to))
         if len(segs) == 2 and segs[1] == "default" and not e.args:
             head = segs[0]
+            if head == "Default" and self.unit.get("let_annot") and expect is not None and expect[0] == "struct":
+                head = expect[1]        # `let x: T = Default::default();`: the annotation names the type (a builder's setter may be called `default` too)
+                if head in self.w.structs and head not in self.w.bad_structs and "Default" in self.w.meta[head]["derives"]:
+                    return Val("P", self.default_term(("struct", head), e), ("struct", head))
             if head == "Self" and self.self_ty is not None and self.self_ty[0] == "struct":
                 head = self.self_ty[1]
             if head in self.w.structs and head not in self.w.bad_structs and "Default" in self.w.meta[head]["derives"] \
